@@ -127,6 +127,7 @@ impl SecondaryTransaction {
             self.table.block_cache.clone(),
             rowset_id,
             self.table.storage_options.io_backend.clone(),
+            self.table.storage_options.checksum_type,
         )
         .await?;
 
